@@ -181,21 +181,38 @@ class Memory:
         self.starts = []       # sorted region starts
         self.ends = {}         # start -> end
         self.bufs = {}         # start -> buffer (keeps it alive)
+        self.real = {}         # start of a low region -> where its bytes really are
         self.reads = 0
 
-    def alloc(self, size):
+    def alloc(self, size, low=False):
+        """low: an address below 4 GiB (the brk heap of a program that is not position independent, a 32-bit inferior):
+        the region lives in a buffer elsewhere, every access is translated"""
         import bisect
         size = max(size, 1)
         buf = ctypes.create_string_buffer(size + 16)       # 16 guard bytes that do NOT belong to the region
         addr = ctypes.addressof(buf)
+        if low:
+            self.low_next = getattr(self, 'low_next', 0x01c3f2a0)
+            real, addr = addr, self.low_next
+            self.low_next += (size + 16 + 15) // 16 * 16
+            self.real[addr] = real
         bisect.insort(self.starts, addr)
         self.ends[addr] = addr + size
         self.bufs[addr] = buf
         return addr
 
+    def _real(self, addr):
+        import bisect
+        if not self.real:
+            return addr
+        i = bisect.bisect_right(self.starts, addr) - 1
+        if i >= 0 and self.starts[i] in self.real:
+            return self.real[self.starts[i]] + (addr - self.starts[i])
+        return addr
+
     def write(self, addr, data):
         self.check(addr, len(data))
-        ctypes.memmove(addr, data, len(data))
+        ctypes.memmove(self._real(addr), data, len(data))
 
     def check(self, addr, size):
         import bisect
@@ -209,7 +226,7 @@ class Memory:
     def read(self, addr, size):
         self.reads += 1
         self.check(addr, size)
-        return ctypes.string_at(addr, size)
+        return ctypes.string_at(self._real(addr), size)
 
     def cstring(self, addr, limit=1 << 20):
         import bisect
@@ -218,7 +235,7 @@ class Memory:
         if i < 0 or addr >= self.ends[self.starts[i]]:
             raise MemoryError('Cannot access memory at address 0x%x' % addr)
         end = self.ends[self.starts[i]]
-        raw = ctypes.string_at(addr, end - addr)
+        raw = ctypes.string_at(self._real(addr), end - addr)
         j = raw.find(b'\x00')
         if j < 0:
             raise MemoryError('Cannot access memory at address 0x%x' % end)     # ran off the end of the region
@@ -228,6 +245,7 @@ class Memory:
         self.starts = []
         self.ends = {}
         self.bufs = {}
+        self.real = {}
 
 
 MEM = Memory()
